@@ -7,13 +7,13 @@ TraceInit == d = InitVal("") /\ l = 1 /\ viol = {} /\ TLCSet(1, <<0, {}>>)
 \* (bounded: a build in which almost every event breaks a rule would otherwise make every state carry an ever larger set)
 Judge(ev, V) == viol' = IF Cardinality(viol) < 400 THEN viol \cup {<<ev.t, l, r>> : r \in V} ELSE viol
 Step(ev) ==
-    CASE ev.e = "Init" -> d' = InitVal(ev.k) /\ UNCHANGED viol
+    CASE ev.e = "Init" -> d' = [InitVal(ev.k) EXCEPT !.anydrop = (ev.n = 1)] /\ UNCHANGED viol
       [] ev.e = "FdOpen" /\ ev.k \in {"5", "1"} -> d' = [d EXCEPT !.own = @ \cup {ev.n}] /\ UNCHANGED viol
       [] ev.e = "FdClose" /\ ev.k \in {"1", "5", "6"} -> d' = [d EXCEPT !.own = @ \ {ev.n}] /\ UNCHANGED viol
       [] ev.e = "SlotAlloc" -> d' = [d EXCEPT !.slots = @ + 1] /\ UNCHANGED viol
       [] ev.e = "SlotFree" -> d' = [d EXCEPT !.slots = @ - 1] /\ UNCHANGED viol
       [] ev.e = "CtxExpired" -> d' = [d EXCEPT !.expired = TRUE] /\ UNCHANGED viol
-      [] ev.e = "DialRet" -> d' = [d EXCEPT !.returned = TRUE] /\ Judge(ev, RetViol(ev.k = "err", ev.n, ev.m, IF ev.err = "1" THEN 1 ELSE 0))
+      [] ev.e = "DialRet" -> d' = [d EXCEPT !.returned = TRUE] /\ Judge(ev, RetViolW(ev.k = "err", ev.n, ev.m, IF ev.err = "1" THEN 1 ELSE 0, ev.g = "waited" \/ ev.err = "waited"))
       [] ev.e = "Echo" -> Judge(ev, IF ev.n = 0 THEN {"C14.connection_not_usable_in_both_directions"} ELSE {}) /\ UNCHANGED d
       [] ev.e = "Census" -> Judge(ev, CensusViol(ev.n, ev.m)) /\ UNCHANGED d
       [] ev.e = "Panic" -> Judge(ev, {"C14.panic"}) /\ UNCHANGED d
